@@ -144,6 +144,7 @@ def call_function(it, fn, args, kwargs):
         if c is None:
             raise EngineError(f'call to {I.qualname_of(fn)}: no contract and not transparent')
         if c.mode == 'transparent' or it.concrete:
+            it.used.add(c.qualname)
             return run_body(it, fn, bound)
         return call_by_contract(it, c, fn, bound)
     if top in ('spec', 'contracts', 'pyvc'):
@@ -182,6 +183,7 @@ def make_old(it, bound):
 def call_by_contract(it, c, fn, bound):
     I = _I()
     ctx = it.ctx
+    it.used.add(c.qualname)
     where = ctx.where
     caller = it.current_fn[-1].__qualname__ if it.current_fn else '<top>'
     tag = f'{caller}/call:{fn.__qualname__}'
